@@ -162,6 +162,62 @@ pub fn run_real(w: &Arc<Workload>, spec: &SchedSpec, keep_events: bool) -> RealR
     }
 }
 
+/// `first` and then `w` through the real checker inside one execution (same simulated
+/// threads, same OS thread, same process state); reports what the second check returned.
+pub fn run_real_after(first: &Arc<Workload>, w: &Arc<Workload>, spec: &SchedSpec) -> RealRun {
+    let (f2, w2) = (first.clone(), w.clone());
+    let out: SimOutcome<(
+        Result<Verdict, crate::runner::PanicInfo>,
+        events::Log,
+        hooks::HookState,
+        store::FaultCounts,
+    )> = run_sim(spec, move || {
+        events::reset(false);
+        hooks::reset(false, 0);
+        store::reset_faults(DEVICE_CALL_BUDGET);
+        rayon::sim::set_item_budget(ITEM_BUDGET);
+        hooks::set_op_budget(OP_BUDGET);
+        let r = crate::runner::catch(|| {
+            // both sets are prepared up front so that nothing is allocated between the two checks:
+            // the second check then tends to get its allocations where the first had them
+            // (a cache keyed by address sees "the same set" again)
+            let m1 = f2.materialize();
+            let m = w2.materialize();
+            drop(real::run_checker(&f2, &m1));
+            real::run_checker(&w2, &m)
+        });
+        (r, events::take(), hooks::take(), store::fired())
+    });
+    let info = ExecInfo {
+        steps: out.steps,
+        context_switches: out.context_switches,
+        order_hash: out.stats.order_hash,
+        regions_multi: out.stats.regions_multi,
+        overlaps: out.stats.overlaps,
+        ..Default::default()
+    };
+    let verdict = match out.result {
+        Ok((_, _, _, fc)) if fc.budget > 0 => Err(finding("budget", "device call budget exhausted")),
+        Ok((Ok(v), _, hs, _)) => match hs.bound_violation {
+            Some(b) => Err(finding("vm-bound", b)),
+            None => Ok(v),
+        },
+        Ok((Err(p), ..)) => match crate::runner::classify_panic(p) {
+            SimFailure::ItemBudget => Err(finding("budget", "budget")),
+            SimFailure::Panic(p) => Err(finding("panic", format!("panic out of the checker: {} at {}", p.message, p.location))),
+            other => Err(finding("abnormal", format!("{other:?}"))),
+        },
+        Err(SimFailure::ItemBudget) => Err(finding("budget", "budget")),
+        Err(e) => Err(finding("abnormal", format!("{e:?}"))),
+    };
+    RealRun {
+        verdict,
+        info,
+        events: Vec::new(),
+        trace: out.trace,
+    }
+}
+
 /// The model's expectation for `w` (sequential, outside any simulated execution).
 pub fn run_model(w: &Workload) -> (Mat, ModelOut) {
     rayon::sim::set_mode(rayon::sim::Mode::Sequential);
